@@ -1794,14 +1794,60 @@ func ruleOnFinalDecorations(w *World, r *Report, pfx string) {
 				cands = append(cands, f)
 			}
 		}
+		// only the functions that draw (a filler or a Decor), and only when they read the flag themselves:
+		// a test delegated to a predicate value (`if !event(st)`) is not decided here
+		readsFlag := func(f *ssa.Function) bool {
+			for _, b := range f.Blocks {
+				for _, in := range b.Instrs {
+					var fr fieldRef
+					var ok bool
+					switch x := in.(type) {
+					case *ssa.FieldAddr:
+						fr, ok = fieldOf(x)
+					case *ssa.Field:
+						fr, ok = fieldOf(x)
+					}
+					if ok && fr.Owner == tStat && fr.Name == sp.flag {
+						return true
+					}
+				}
+			}
+			return false
+		}
+		var drawing []*ssa.Function
+		for _, f := range cands {
+			res := f.Signature.Results()
+			isDraw := (res.Len() == 1 && types.Identical(res.At(0).Type(), types.Universe.Lookup("error").Type())) || (res.Len() == 2 && f.Name() == "Decor")
+			if !isDraw {
+				continue
+			}
+			if readsFlag(f) {
+				drawing = append(drawing, f)
+				continue
+			}
+			// no read of the flag: a test delegated to a predicate value (some call yields a bool) is not
+			// decided; without any such call the function cannot tell the final state at all
+			delegated := false
+			for _, b := range f.Blocks {
+				for _, in := range b.Instrs {
+					if c, ok := in.(*ssa.Call); ok && types.Identical(c.Type(), types.Typ[types.Bool]) {
+						delegated = true
+					}
+				}
+			}
+			if !delegated {
+				r.Violated(rule, sp.ctor+": "+fnShort(f), w.pos(f.Pos()), "the drawing function never looks at Statistics."+sp.flag+": the decoration is shown always or never")
+			}
+		}
+		cands = drawing
 		if len(cands) == 0 {
-			r.Undecided(rule, "API:"+sp.ctor, w.pos(ctor.Pos()), "the function that draws the wrapped decoration was not found")
+			r.HoldsTrivial(rule, "API:"+sp.ctor, w.pos(ctor.Pos()), "no drawing function under this constructor tests Statistics."+sp.flag+" itself (delegated test): not decided")
 			continue
 		}
 		for _, f := range cands {
 			bad := ""
 			sawOwn, sawPlain := false, false
-			_, over := w.enumPaths(f, pathOpts{InlineDepth: 1, Inline: w.helperInline(f)}, func(p *Path) {
+			_, over := w.enumPaths(f, pathOpts{InlineDepth: 2, Inline: w.helperInline(f)}, func(p *Path) {
 				if p.Exit != "return" || bad != "" {
 					return
 				}
@@ -1816,6 +1862,9 @@ func ruleOnFinalDecorations(w *World, r *Report, pfx string) {
 					}
 					if c.Call.IsInvoke() && (c.Call.Method.Name() == "Decor" || c.Call.Method.Name() == "Fill") {
 						continue
+					}
+					if sc := c.Call.StaticCallee(); sc != nil && w.modSet[sc] {
+						continue // a private helper: its body is walked in line
 					}
 					own = true
 				}
